@@ -239,6 +239,12 @@ int main() {
          st.scopes.pop_back();
          return "ok";
       }
+      if (t.size() == 3 && t[0] == "scope" && t[1] == "drop") {   // live scope number i, 0 = newest
+         const size_t i = static_cast<size_t>(std::stoull(t[2]));
+         if (i >= st.scopes.size()) return "bad-op";
+         st.scopes.erase(st.scopes.end() - 1 - static_cast<std::ptrdiff_t>(i));
+         return "ok";
+      }
       if (t.size() == 3 && t[0] == "attr" && t[1] == "get") {   // Logging::getAttribute
          std::string n;
          if (!vh::hexDecodeStr(t[2], n)) return "bad-op";
